@@ -149,15 +149,19 @@ CLAIMED["C08"] = {
 }
 
 CLAIMED["C16"] = {
-    "text": "The expression layer of the fluent builder only: it is proved (Verus, structural induction, all trees whose handles belong to the builder) that to_exp translates an index-based builder tree into a language tree "
-            "with exactly the same meaning under the language semantics (every variant incl. min/max/and/or lists), and that eval_expr - the evaluator behind BuilderSolution::eval - computes that meaning "
-            "(number, variable, abs, not, xor, implies, iff, all binary and unary operators; the Min/Max/And/Or arms use iterator fold/all/any and are assumed arms checked by a BOUNDED search on the real code). "
-            "The overloaded operators (+ - * / for every Expr / Var / f64 / i32 operand pair, unary minus, not, xor, implies, iff, abs) are proved by loop-free Kani harnesses over symbolic handles and payloads (complete) to build exactly the node they stand for, "
-            "operands in source order. NOT decided: the macros, & and | (vector-building), into_model (usage marking, default objective), handle -> name -> value resolution in BuilderSolution / LpSolution, "
-            "the pipe runner and RoocSolver entry points, equality of the compiled linear models across front doors (corollary of C01/C02 for equal trees).",
-    "note": "Trusted: prelude/f64_layer.rs (floats as exact extended reals), prelude/std_stubs.rs. Rule R33 renames the extracted helper `truthy` (clash with the ghost name).",
-    "technique": "Verus contracts relating sem(to_exp(e)) and eval_expr(e) to a ghost meaning esem(e) of builder trees, on functions extracted from builder/expr.rs; Kani full-domain harnesses for the operator impls; bounded executable-postcondition search for the assumed arms",
-    "design_ref": "DESIGN.md §5 C16",
+    "text": "Proved (Verus, all inputs): (1) to_exp translates an index-based builder tree into a language tree with exactly the same meaning under the language semantics (every variant incl. min/max/and/or lists), "
+            "and eval_expr - the evaluator behind BuilderSolution::eval - computes that meaning (the Min/Max/And/Or arms use iterator fold/all/any and are assumed arms checked by a BOUNDED search on the real code); "
+            "(2) ModelBuilder::new / add_var / with / satisfy keep the representation invariant 'handle i names the i-th declared variable, names distinct, every name has a domain entry' (a duplicate name never returns), "
+            "and into_model / BuilderConstraint::to_constraint hand over a name-based model whose k-th constraint holds at an assignment exactly when the builder's k-th constraint does, whose objective is the builder's "
+            "(or the constant-0 feasibility objective), and in which every declared variable keeps its type and is marked used; (3) LpSolution::new / value_of: reading by name returns the value of the first assignment with that name. "
+            "The overloaded operators (+ - * / for every Expr / Var / f64 / i32 operand pair, unary minus, not, xor, implies, iff, abs) are proved by loop-free Kani harnesses over symbolic handles and payloads (complete) to build exactly the node they stand for. "
+            "BOUNDED (labelled, not counted as proved): agreement of the four front doors themselves - about 90 model descriptions each expressed as text and through the builder (3 call orders, Microlp and Auto) are compiled through "
+            "RoocParser+Linearizer, RoocSolver::solve_using, PipeRunner (MILP and auto presets) and ModelBuilder and compared row for row, by verdict and optimal value; every returned point is checked against an independent evaluator of the description; "
+            "var_value / numeric_value / eval / value are compared with the by-name values; unused declared variables must resolve inside their domain. One genuine defect was found this way and repaired (fix: dc09504): a bare 'solve' had objective value 1 through the text doors and 0 through the builder. "
+            "NOT decided: the macros (vars!, constraint!, expr!: exercised only by the repository's tests), BuilderSolution's generic trait plumbing beyond the bounded search, solutions built by deserialisation.",
+    "note": "Trusted: prelude/f64_layer.rs (floats as exact extended reals), prelude/std_stubs.rs (incl. R44: panic! is a call that does not return), prelude/smap.rs (IndexMap as an insertion-ordered map). Rule R33 renames the extracted helper `truthy` (clash with the ghost name).",
+    "technique": "Verus contracts relating sem(to_exp(e)), eval_expr(e), into_model and value_of to ghost meanings (esem, bc_holds, first_val) on functions extracted from builder/expr.rs, builder/model.rs and solvers/common.rs; Kani full-domain harnesses for the operator impls; bounded executable check of the entry points against each other (labelled bounded)",
+    "design_ref": "DESIGN.md §5 C16, §11.7",
 }
 
 CLAIMED["C11"] = {
